@@ -217,6 +217,8 @@ func (fx *FnCtx) execInstr(st *State, pc *Term, ins ssa.Instruction) {
 			src := fx.val(t.Call.Args[1])
 			env.vars["dst"] = SV{V: dst}
 			env.vars["res"] = SV{V: v}
+			env.pc = pc
+			env.vars["fits"] = SV{V: Value{T: types.Typ[types.Bool], L: []*Term{And(Eq(v.L[0], dst.L[0]), Eq(v.L[1], dst.L[1]))}}}
 			if _, ok := t.Call.Args[1].Type().Underlying().(*types.Slice); ok {
 				el := elemTypeOf(t.Call.Args[1].Type())
 				env.vars["elem0"] = SV{V: fx.readElem(preSt, el, src.L[0], src.L[1])}
